@@ -24,6 +24,7 @@ func checkC06(c *Ctx, r *Report) {
 	c06GenerateRange(c, r)
 	c06IncludeFile(c, r)
 	c06GenerateEscape(c, r)
+	c06LexerRecordEnd(c, r)
 }
 
 // mustPassExit is mustPass restricted to the exits accepted by isExit.
